@@ -30,6 +30,8 @@ func AsyncMapReduce[T, P, A any](
 	var errs gqlerrors.ErrorList
 	var wg sync.WaitGroup
 
+	vid := VerifNew("amr")
+	VerifPoint(vid, "amr.spawn", len(payload))
 	wg.Add(len(payload))
 
 	resChan := make(chan P)
@@ -41,35 +43,52 @@ func AsyncMapReduce[T, P, A any](
 	doneChan := make(chan struct{})
 	defer close(doneChan)
 
+	vi := -1
 	for _, value := range payload {
+		vi++
+		vk := vi
 		go func(v T) {
+			VerifPoint(vid, "w.start", vk)
 			mapRes, err := mapFunc(v)
 			if err != nil {
+				VerifPoint(vid, "w.send.err", vk)
 				errChan <- err
+				VerifPoint(vid, "w.sent.err", vk)
 				return
 			}
+			VerifPoint(vid, "w.send.res", vk)
 			resChan <- mapRes
+			VerifPoint(vid, "w.sent.res", vk)
 		}(value)
 	}
 
 	go func() {
 		for {
+			VerifPoint(vid, "r.select")
 			select {
 			case res := <-resChan:
+				VerifPoint(vid, "r.recv.res")
 				acc = reduceFunc(acc, res)
+				VerifPoint(vid, "r.reduced")
 				wg.Done()
 			case err := <-errChan:
+				VerifPoint(vid, "r.recv.err")
 				errs = gqlerrors.ExtendErrorList(errs, err)
+				VerifPoint(vid, "r.erred")
 				wg.Done()
 			case <-doneChan:
+				VerifPoint(vid, "r.exit")
 				return
 			}
 		}
 	}()
 
+	VerifPoint(vid, "m.wait")
 	wg.Wait()
+	VerifPoint(vid, "m.waited")
 
 	doneChan <- struct{}{}
+	VerifPoint(vid, "m.signalled")
 
 	if len(errs) > 0 {
 		return acc, errs
